@@ -312,7 +312,11 @@ def hdl21_naming_encoder(obj: Any) -> Any:
             return "0"
         return ("-" if sign else "") + "".join(str(d) for d in digits) + "e" + str(exponent)
 
-    if isinstance(obj, (Module, ExternalModule, Generator)):
+    if isinstance(obj, ExternalModule):
+        # Qualified path, plus the domain: two libraries' same-named cells are different things
+        return [obj.domain, module_qualname(obj)]
+
+    if isinstance(obj, (Module, Generator)):
         # Use qualified class names/paths
         return module_qualname(obj)
 
@@ -322,8 +326,8 @@ def hdl21_naming_encoder(obj: Any) -> Any:
         return obj.name
 
     if isinstance(obj, ExternalModuleCall):
-        # Mix the qualified class names/paths with the parameters
-        return module_qualname(obj.module) + _unique_name(obj.params)
+        # Mix the module with the parameters. Kept apart: concatenated, `Ex` + `y=1` and `E` + `xy=1` would read alike.
+        return [hdl21_naming_encoder(obj.module), _unique_name(obj.params)]
 
     if isinstance(obj, (set, frozenset)):
         # Sets iterate in hash order, which differs from one Python process to the next.
